@@ -8,7 +8,7 @@ import archlib
 from core import Driver, Failure, q, ql
 
 ID = "C06"
-PROOF_MODULES = ["PyribsProofs.C06", "PyribsProofs.C06b", "PyribsProofs.Cqd", "PyribsProofs.C14b"]
+PROOF_MODULES = ["PyribsProofs.C06", "PyribsProofs.C06b", "PyribsProofs.Cqd", "PyribsProofs.C14b", "PyribsProofs.C15b"]
 THEOREMS = [
     "Pyribs.C06.sum_point_update",
     "Pyribs.C06.totalObj_applyWs",
@@ -32,6 +32,8 @@ THEOREMS = [
     "Pyribs.Cqd.score_perm_invariant",
     "Pyribs.Cqd.score_eq_formula",
     "Pyribs.Cqd.nonvacuous",
+    "Pyribs.C15b.good_addSingle",
+    "Pyribs.C15b.good_history",
 ]
 RULE = ("lock-step histories on every fixed-cell archive kind, default and CMA-MAE settings, offsets "
         "{0,-8,3/2,-100}, float32/float64 with dyadic objectives (sums exact in the dtype); after every call stats "
